@@ -12,7 +12,12 @@ from harness.gen import datasets as G
 ID = 'C03'
 MODULE = 'EmsModel.Props.C03'
 DRIVER = 'C03'
+# theorems about the terms harness/trans_dimssrc.py generates from the source of the flattening / winding helpers
+EXTRA_MODULES = ['EmsModel.Props.C03Src']
 REQUIRED = [
+    'Ems.C03.splice_generated', 'Ems.C03.move_order_generated', 'Ems.C03.move_structure_generated',
+    'Ems.C03.ravel_dims_generated', 'Ems.C03.ravel_generated_matches_model', 'Ems.C03.wind_dims_generated',
+    'Ems.C03.wind_generated_matches_model', 'Ems.C03.find_unused_generated', 'Ems.C03.dims_functions_translated',
     'Ems.C03.wind_ravel', 'Ems.C03.moveToEnd_get', 'Ems.C03.moveToEnd_dims', 'Ems.C03.moveToEnd_missing',
     'Ems.C03.ravel_collision_refused', 'Ems.C03.ravel_get', 'Ems.C03.wind_get', 'Ems.C03.ravel_wind', 'Ems.C03.findUnused_fresh', 'Ems.C03.no_grid_refused', 'Ems.C03.kind_first_match',
 ]
@@ -37,6 +42,21 @@ RULE = ('(a) utils level: random tagged arrays of rank 1-5 in random dimension o
         'with the grid dimensions not already last and in order, or an error case; distinct by (dims, op, args).')
 TRUSTED = ['numpy reshape/transpose on C-ordered data; xarray.DataArray.transpose; python tuple indexing']
 ASSUMPTIONS = ['data arrays have distinct dimension names (xarray only warns on duplicates)']
+# ---- round 6 (representations of the values; variables that look alike) - appended, other entries kept ---------
+EXTRA_MODULES = list(globals().get('EXTRA_MODULES', [])) + ['EmsModel.Props.C03Hist']
+REQUIRED = list(REQUIRED) + ['Ems.C03.kind_presentation_independent', 'Ems.C03.kind_of_transposed',
+                             'Ems.C03.ravel_presentation_independent']
+RULE = RULE + (
+    ' (c) Representations and look-alikes (harness/gen/c03_extra6.py, a random stream of its own): datasets whose '
+    'sizes COINCIDE (square grids; extra dimensions as long as a grid dimension or as the whole grid), their data '
+    'variables in native or non-native byte order; per variable a history on ONE convention object: the dataset\'s '
+    'variable, the same variable transposed (same name, and the same shape where lengths coincide), fresh arrays '
+    'carrying that name, same-named same-shaped arrays on no grid (refused), other-named ones; then same-named '
+    'linear data with the linear dimension and an equally long dimension changing places (wind then ravel). Fresh '
+    'arrays hold their tags as i2..i8 / u2 / u4 / f2..f8 / complex / datetime64 / timedelta64, native or byte-swapped, '
+    'C / F / strided / read-only; results are read BY VALUE. Every member is judged against its spec alone and sent '
+    'to the model (`ravel`, `wind`, and `ravelp`: the model transposes the stored variable itself).')
+# -----------------------------------------------------------------------------------------------------------------
 
 
 def arr_str(da: xr.DataArray) -> str:
@@ -157,6 +177,7 @@ class Ledger:
 
     def __init__(self, ctx, recipe):
         self.ctx, self.recipe, self.held, self.altered = ctx, recipe, [], []
+        self.extra = {}     # (round 6) further keys of the description of a failure, e.g. the history so far
 
     def hold(self, what: str, arr, chain: list, op: str, late: bool = False) -> None:
         try:
@@ -185,7 +206,7 @@ class Ledger:
                 now = '?'
             self.ctx.oracle_fail(
                 'input-modified' if h['what'] == 'input' else 'result-altered-by-later-call',
-                {'recipe': self.recipe, 'op': h['op'], 'held': h['what'], 'held_chain': h['chain'],
+                {**self.extra, 'recipe': self.recipe, 'op': h['op'], 'held': h['what'], 'held_chain': h['chain'],
                  'later_call': op, 'later_chain': chain},
                 f"{h['what']} ({h['op'][:100]}) held {h['snap'][1].reshape(-1)[:8].tolist()}... when it was "
                 f"{'passed in' if h['what'] == 'input' else 'returned'}; after the later call ({op[:100]}) on the same "
@@ -474,6 +495,130 @@ def convention_cases(ctx, conv: str, items: list) -> None:
             ctx.count('late-read')
 
 
+# ==== round 6: representations of the values; histories of variables that look alike ===========================
+def lookalike_cases(ctx, conv: str, items: list, rng6) -> None:
+    """one generated dataset with coinciding sizes, ONE convention object; per data variable a history of
+    presentations that share its name (and, where lengths coincide, its shape), then of same-named linear data.
+    Every member is judged against its own spec (`X6.expect_ravel` / `X6.expect_wind`), never against an earlier
+    answer; everything handed in and out is held and looked at again after every later call."""
+    from harness.gen import c03_extra6 as X6
+    recipe, families = X6.plan(rng6, conv, ctx.tier)
+    built = G.build(recipe)
+    c = G.bind(built)
+    gs = grids_spec(built)
+    dflt = built.default_kind
+    kind_objs = {getattr(k, 'value', k): k for k in c.grid_kinds}
+    led = Ledger(ctx, recipe)
+    ctx.count('lookalike:dataset-byte-order:' + ('non-native' if recipe.get('vary') else 'native'))
+
+    def impl(what, fn, op):
+        try:
+            r = fn()
+            o = X6.da_str(r)
+        except Exception:
+            r, o = None, 'ERR'
+        led.after([], op)
+        if r is not None:
+            led.hold(what, r, [], op, late=True)
+        return r, o
+
+    for fam in families:
+        famd = {k: v for k, v in fam.items() if k not in ('members', 'linear')}
+        kind, gdims = fam['kind'], fam['gdims']
+        stored_arr = X6.arr_str(fam['stored'], X6.truth(fam, {'source': 'dataset', 'dims': fam['stored']}))
+        history, seen = [], {}
+        for spec in fam['members'] + fam['linear']:
+            history.append(spec)
+            desc = {'recipe': recipe, 'family': famd, 'history': list(history), 'kind': kind}
+            led.extra = {'family': famd, 'history': list(history)}
+            # has the object seen this name with this shape before - in another order of the dimensions?
+            key = (spec['name'], tuple(spec['sizes']))
+            alike = spec['name'] is not None and key in seen and seen[key] != list(spec['dims'])
+            seen.setdefault(key, list(spec['dims']))
+            ctx.count('lookalike:' + spec['how'] + (':same-name-and-shape-as-an-earlier-one' if alike else ''))
+            if spec['how'] == 'linear':
+                x = X6.linear_member(spec)
+                ctx.count('lookalike:storage:' + str(x.dtype))
+                wdims, wt, bdims, bt = X6.expect_wind(fam, spec)
+                xs = X6.arr_str(spec['dims'], (np.arange(int(np.prod(spec['sizes']))) + spec['base']).reshape(spec['sizes']))
+                kw = X6.wind_kwargs(spec)
+                wline = f"wind {gs} {dflt} {xs} {kind} {kw.get('axis', '-')} {kw.get('linear_dimension', '-')}"
+                desc['op'] = wline
+                led.hold('input', x, [], wline)
+                wound, wout = impl('wind(x)', lambda: c.wind(x, grid_kind=kind_objs[kind], **kw), wline)
+                items.append((wline, wout, {'recipe': recipe, 'op': wline}))
+                if alike:
+                    ctx.nontrivial(('lookalike-wind', conv, kind, tuple(spec['dims']), spec['mode']))
+                if wound is None:
+                    ctx.oracle_fail('wind-raised', desc, 'ems.wind raised on well-formed linear data')
+                    continue
+                expect_w = X6.arr_str(wdims, wt)
+                if list(wound.dims) != wdims:
+                    ctx.oracle_fail('wind-dims-order', desc, f'wind dims {wound.dims}, expected {tuple(wdims)}')
+                elif wout != expect_w:
+                    ctx.oracle_fail('wind-differs', desc, f'wind(x) = {wout[:120]} expected {expect_w[:120]}')
+                rline = f"ravel {gs} {dflt} {expect_w} {spec['lname']}"
+                back, bout = impl('ravel(wind(x))', lambda: c.ravel(wound, linear_dimension=spec['lname']), rline)
+                expect_b = X6.arr_str(bdims, bt)
+                if wout == expect_w:
+                    items.append((rline, bout, {'recipe': recipe, 'op': rline}))
+                if bout != expect_b:
+                    ctx.oracle_fail('ravel-of-wind-differs', {**desc, 'op': rline},
+                                    f'ravel(wind(x)) = {bout[:120]} expected {expect_b[:120]}')
+                if X6.kind_of_type(wound.dtype) != X6.kind_of_type(x.dtype) or (back is not None and X6.kind_of_type(back.dtype) != X6.kind_of_type(x.dtype)):
+                    ctx.oracle_fail('storage-type-changed', {**desc, 'dtype': str(x.dtype)},
+                                    f'{x.dtype} data: wind gives {wound.dtype}, ravel gives {None if back is None else back.dtype}')
+                continue
+            da = X6.member(built, fam, spec)
+            ctx.count('lookalike:storage:' + str(da.dtype))
+            lin = spec['lin']
+            a = X6.arr_str(spec['dims'], X6.truth(fam, spec))
+            line = f"ravel {gs} {dflt} {a} {lin or '-'}"
+            desc['op'] = line
+            led.hold('input', da, [], line)
+            flat, out = impl('ravel(v)', lambda: c.ravel(da) if lin is None else c.ravel(da, linear_dimension=lin), line)
+            items.append((line, out, {'recipe': recipe, 'op': line}))
+            if spec['source'] == 'dataset':
+                # the same question as the user puts it: the STORED variable and the order it is handed over in
+                pline = f"ravelp {gs} {dflt} {stored_arr} {','.join(spec['dims']) or '-'} {lin or '-'}"
+                items.append((pline, out, {'recipe': recipe, 'op': pline}))
+            exp = X6.expect_ravel(fam, spec)
+            if alike or exp is None:
+                ctx.nontrivial(('lookalike-ravel', conv, kind, spec['how'], tuple(spec['dims']), lin))
+            if exp is None:
+                if flat is not None:
+                    ctx.oracle_fail('no-grid-accepted', desc,
+                                    f"ems.ravel accepted a variable on no grid (dims {tuple(spec['dims'])}, name {spec['name']!r}): {out[:80]}")
+                continue
+            if flat is None:
+                ctx.oracle_fail('ravel-raised', desc, 'ems.ravel raised on a variable defined on a grid')
+                continue
+            others, lexp, eflat, et = exp
+            expect_flat = X6.arr_str(others + [lexp], eflat)
+            if out != expect_flat:
+                ctx.oracle_fail('ravel-differs', desc, f'ravel(v) = {out[:120]} expected {expect_flat[:120]}')
+            kw = X6.rewind_kwargs(spec, list(flat.dims), kind_objs[kind], kind == dflt)
+            wline = (f"wind {gs} {dflt} {expect_flat} {kind if 'grid_kind' in kw else '-'} "
+                     f"{kw.get('axis', '-')} {kw.get('linear_dimension', '-')}")
+            wound, wout = impl('wind(ravel(v))', lambda: c.wind(flat, **kw), wline)
+            if out == expect_flat:
+                items.append((wline, wout, {'recipe': recipe, 'op': wline}))
+            expect = X6.arr_str(others + gdims, et)
+            if wout != expect:
+                ctx.oracle_fail('wind-of-ravel-differs', {**desc, 'op': wline, 'mode': spec['wmode']},
+                                f'wind(ravel(v)) = {wout[:120]} expected {expect[:120]}')
+            if X6.kind_of_type(flat.dtype) != X6.kind_of_type(da.dtype) or (wound is not None and X6.kind_of_type(wound.dtype) != X6.kind_of_type(da.dtype)):
+                ctx.oracle_fail('storage-type-changed', {**desc, 'dtype': str(da.dtype)},
+                                f'{da.dtype} data: ravel gives {flat.dtype}, wind gives {None if wound is None else wound.dtype}')
+    # everything that was handed out, read again now that the whole history has been through the object
+    for h in led.held + led.altered:
+        if h['late']:
+            items.append((h['op'], X6.da_str(h['arr']), {'recipe': recipe, 'op': h['op'],
+                                                         'read': 'after every later call on the same convention object'}))
+            ctx.count('late-read')
+# ================================================================================================================
+
+
 def run(ctx) -> None:
     from emsarray import utils
     rng = ctx.rng
@@ -547,6 +692,12 @@ def run(ctx) -> None:
     for dnum in range(n_ds):
         conv = G.CONVS[dnum % len(G.CONVS)]
         ctx.guarded(lambda: convention_cases(ctx, conv, items), {'conv': conv, 'dataset': dnum})
+    # ---- (c) round 6: representations and look-alikes; a random stream of its own, after everything else ----------
+    import random as _random
+    rng6 = _random.Random(f'{ctx.seed}:{int(ctx.searching)}:c03-extra6')
+    for dnum in range(ctx.budget(15, 90)):
+        conv = G.CONVS[dnum % len(G.CONVS)]
+        ctx.guarded(lambda: lookalike_cases(ctx, conv, items, rng6), {'conv': conv, 'lookalike-dataset': dnum})
     if ctx.searching and ctx.driver is None:
         ctx.evaluated(len(items))
         return
@@ -557,7 +708,11 @@ def run_one(ctx, inp: dict) -> dict:
     out = {}
     if inp.get('op') and ctx.driver:
         out['model'] = ctx.model([inp['op']])[0]
-    if inp.get('held_chain') and inp.get('later_chain') and inp.get('recipe'):
+    if inp.get('history') and inp.get('family') and inp.get('recipe'):
+        # (round 6) a history of look-alike variables on one convention object
+        from harness.gen import c03_extra6 as X6
+        out.update(X6.replay_history(inp))
+    elif inp.get('held_chain') and inp.get('later_chain') and inp.get('recipe'):
         # a history on one convention object: produce the held value, make the later call, look at the held value again
         built = G.build(inp['recipe'])
         c = G.bind(built)
